@@ -169,6 +169,9 @@ def monitor_c03(sc, obs):
         if o['op'][0] == 'init':
             started = True
         if not started or o['st'] not in (0, 2, 3):
+            if started and o['st'] == 5 and o['op'][0] in ('run', 'step'):
+                # "a finite-horizon run of a well-posed model always returns": a RuntimeError / RecursionError out of the event loop
+                _bad(v, 'C03/run-raised', 'op %d %s (t=%d): the event loop raised a RuntimeError (RecursionError included) instead of returning' % (i, o['op'], o['now']))
             if o['st'] not in (0, 2, 3):
                 return v
             continue
@@ -346,11 +349,24 @@ def monitor_c08(sc, obs):
                 return True
             if kinds[a] == 'path':
                 return b in devs[groups[ents[a]['gid']]['gin']]['down']
-            # leaving a group through its output device: next hop is downstream of a path of that group
-            for gid, g in groups.items():
-                if g['gout'] in da:
-                    if any(b in devs[p]['down'] for p in g['paths']):
-                        return True
+            # leaving a group through its output device: next hop is downstream of a path of that group; when that is the
+            # output device of an enclosing group (nested groups), the part leaves the enclosing group in the same hand-over
+            gouts = {g['gout']: gid for gid, g in groups.items()}
+
+            def exits(gid, seen):
+                res = set()
+                if gid in seen:
+                    return res
+                for p in groups[gid]['paths']:
+                    for x in devs[p]['down']:
+                        if x in gouts:
+                            res |= exits(gouts[x], seen | {gid})
+                        else:
+                            res.add(x)
+                return res
+            for x in da:
+                if x in gouts and b in exits(gouts[x], frozenset()):
+                    return True
             return False
         for d, e in devs.items():
             for slot, it in _items_in(e):
